@@ -232,21 +232,23 @@ func Check(sys System, traces []Trace, workDir string) (*Verdict, string, error)
 	return nil, o, fmt.Errorf("TLC did not complete (%v)", runErr)
 }
 
-// AssertionFails asks TLC whether action(self), evaluated in the recorded state pre, runs into a
-// failing assert of the specification (some branch of the action's nondeterminism does). It is
-// used when the generated Go reported an assertion failure at that label from that state:
-// the specification must fail there too.
-func AssertionFails(sys System, pre State, action, self, workDir string) (bool, string, error) {
-	fails, out, err := assertionFails(sys, pre, action+"("+self+")", workDir)
+// AssertionFails asks TLC whether action(self), evaluated in the last state of the recorded
+// trace, runs into a failing assert of the specification (some branch of the action's
+// nondeterminism does). It is used when the generated Go reported an assertion failure at
+// that label from that state: the specification must fail there too. TLC walks the recorded
+// trace (exactly as Check does, so the state is built the way that is known to work) and
+// then takes the action.
+func AssertionFails(sys System, tr Trace, action, self, workDir string) (bool, string, error) {
+	fails, out, err := assertionFails(sys, tr, action+"("+self+")", workDir)
 	if err != nil && strings.Contains(out, "requires 0 arguments") {
 		// a single process (process (P = Id)): its actions take no self parameter
 		os.RemoveAll(workDir)
-		return assertionFails(sys, pre, action, workDir)
+		return assertionFails(sys, tr, action, workDir)
 	}
 	return fails, out, err
 }
 
-func assertionFails(sys System, pre State, actionExpr, workDir string) (bool, string, error) {
+func assertionFails(sys System, tr Trace, actionExpr, workDir string) (bool, string, error) {
 	if err := os.MkdirAll(workDir, 0o755); err != nil {
 		return false, "", err
 	}
@@ -271,18 +273,35 @@ func assertionFails(sys System, pre State, actionExpr, workDir string) (bool, st
 	mod := sys.Name + "_assert"
 	var b strings.Builder
 	fmt.Fprintf(&b, "---- MODULE %s ----\nEXTENDS %s, TLC\n\n", mod, sys.Name)
-	b.WriteString("AInit == ")
-	for i, v := range sys.Vars {
-		e, ok := pre[v]
-		if !ok {
-			return false, "", fmt.Errorf("state lacks spec variable %q", v)
+	b.WriteString("T == <<\n")
+	for si, st := range tr.States {
+		if si > 0 {
+			b.WriteString(",\n")
 		}
-		if i > 0 {
-			b.WriteString("         ")
+		b.WriteString("  [")
+		for vi, v := range sys.Vars {
+			if vi > 0 {
+				b.WriteString(", ")
+			}
+			e, ok := st[v]
+			if !ok {
+				return false, "", fmt.Errorf("trace state lacks spec variable %q", v)
+			}
+			fmt.Fprintf(&b, "v_%s |-> %s", v, e)
 		}
-		fmt.Fprintf(&b, "/\\ %s = %s\n", v, e)
+		b.WriteString("]")
 	}
-	fmt.Fprintf(&b, "\nANext == %s\n", actionExpr)
+	b.WriteString("\n>>\n\nVARIABLES ti\n\n")
+	b.WriteString("AInit == /\\ ti = 1\n")
+	for _, v := range sys.Vars {
+		fmt.Fprintf(&b, "         /\\ %s = T[1].v_%s\n", v, v)
+	}
+	b.WriteString("\nAWalk == /\\ ti < Len(T)\n         /\\ ti' = ti + 1\n")
+	for _, v := range sys.Vars {
+		fmt.Fprintf(&b, "         /\\ %s' = T[ti+1].v_%s\n", v, v)
+	}
+	fmt.Fprintf(&b, "\nAAct == /\\ ti = Len(T)\n        /\\ ti' = ti + 1\n        /\\ %s\n", actionExpr)
+	b.WriteString("\nANext == AWalk \\/ AAct\n")
 	b.WriteString(sys.Extra)
 	b.WriteString("\n====\n")
 	if err := os.WriteFile(filepath.Join(workDir, mod+".tla"), []byte(b.String()), 0o644); err != nil {
@@ -312,7 +331,7 @@ func assertionFails(sys System, pre State, actionExpr, workDir string) (bool, st
 	if strings.Contains(o, "The first argument of Assert evaluated to FALSE") {
 		return true, o, nil
 	}
-	if strings.Contains(o, "Model checking completed. No error has been found") || strings.Contains(o, "states generated") && !strings.Contains(o, "Error:") {
+	if strings.Contains(o, "Model checking completed. No error has been found") {
 		return false, o, nil
 	}
 	return false, o, fmt.Errorf("TLC did not complete (%v)", runErr)
